@@ -442,3 +442,38 @@ pub fn seed_files(ctx: &Ctx, n: usize) -> (Vec<(String, Vec<u8>)>, Vec<(String, 
     }
     (mtrls, shpks)
 }
+
+/// Shader packages for the robustness checks (C18) together with the selectors a caller would look up (every node's
+/// and every alias'), and the offsets of the alias records. Every package has an alias of its last node.
+pub fn seed_shpks(ctx: &Ctx, n: usize) -> Vec<(String, Vec<u8>, Vec<u32>, Vec<u32>)> {
+    let ss = shpk_strategy(ctx);
+    let mut out = vec![];
+    let mut k = 0u64;
+    while out.len() < n && k < 300 {
+        let mut s = draw_fixed(&ss, 0xC14_E5ED + k);
+        k += 1;
+        if s.nodes.is_empty() {
+            continue;
+        }
+        let last = s.nodes.len() as u32 - 1;
+        if !s.aliases.iter().any(|a| a.1 == last) {
+            s.aliases.push((0xA11A_5000 + k as u32, last));
+        }
+        let b = encode_shpk(&s);
+        if b.len() >= 8000 {
+            continue;
+        }
+        let mut sels: Vec<u32> = s.nodes.iter().map(|n| n.selector).collect();
+        sels.extend(s.aliases.iter().map(|a| a.0));
+        let mut marks = vec![];
+        for (sel, node) in &s.aliases {
+            let mut rec = sel.to_le_bytes().to_vec();
+            rec.extend_from_slice(&node.to_le_bytes());
+            if let Some(at) = b.windows(8).position(|w| w == &rec[..]) {
+                marks.push(at as u32);
+            }
+        }
+        out.push((format!("gen{}", out.len()), b, sels, marks));
+    }
+    out
+}
